@@ -116,6 +116,44 @@ def resolve_pack(data: bytes, external):
     return dict(objs=objs, thin_bases=ref_bases - set(objs), ndeltas=ndeltas, nobjects=len(entries), dup=len(entries) - len(objs))
 
 
+def split_packs(data: bytes, hash_len=20):
+    """Split a byte string holding several pack streams back to back (GIT_TRACE_PACKFILE appends)."""
+    import struct
+    import zlib
+
+    out = []
+    pos = 0
+    while pos < len(data):
+        start = pos
+        if data[pos : pos + 4] != b"PACK":
+            raise ValueError("bad magic in concatenated pack stream")
+        count = struct.unpack(">L", data[pos + 8 : pos + 12])[0]
+        pos += 12
+        for _ in range(count):
+            c = data[pos]
+            pos += 1
+            t = (c >> 4) & 7
+            while c & 0x80:
+                c = data[pos]
+                pos += 1
+            if t == packfmt.OBJ_REF_DELTA:
+                pos += hash_len
+            elif t == packfmt.OBJ_OFS_DELTA:
+                c = data[pos]
+                pos += 1
+                while c & 0x80:
+                    c = data[pos]
+                    pos += 1
+            d = zlib.decompressobj()
+            d.decompress(data[pos:])
+            if not d.eof:
+                raise ValueError("truncated zlib stream")
+            pos = len(data) - len(d.unused_data)
+        pos += hash_len
+        out.append(data[start:pos])
+    return out
+
+
 # ---------------------------------------------------------------------------
 # raw upload-pack conversation over a socket (protocol v0)
 
@@ -223,8 +261,10 @@ def raw_upload_pack(host, port, path, wants, haves, caps, *, done=True, flush_ev
         try:
             s.sendall(b"".join(out))
             s.shutdown(socket.SHUT_WR)
-        except (BrokenPipeError, ConnectionResetError):
-            pass
+        except socket.timeout:
+            raise
+        except OSError:
+            pass  # the server may have answered and closed before reading everything we wrote
         rest = bytes(buf) + _recv_all(s)
     finally:
         s.close()
